@@ -263,7 +263,143 @@ func runCheck(prop, tier string, seed int) int {
 		}
 	}
 	cr.drift = drift
+	cr.boundedFallback()
 	return cr.report(start, evPath)
+}
+
+// unrollBound is the number of times the bounded stand-in enters each loop head.
+func unrollBound() int {
+	if v := os.Getenv("GOAVC_UNROLL"); v != "" {
+		n := 0
+		fmt.Sscanf(v, "%d", &n)
+		return n
+	}
+	return 4
+}
+
+// boundedFallback: a function whose obligations fail while its proof hints no longer fit its body (a helper
+// loop invariant cannot be evaluated or is not inductive any more, the body has other loops than the contract
+// describes, the function left the subset under the contract's hints) is checked again with its loops unrolled
+// and no hint used. When every obligation of that bounded check discharges, the function is reported as
+// "bounded" (held on everything explored, not proved); otherwise the failures of the deductive check stand.
+func (cr *checkRun) boundedFallback() {
+	n := unrollBound()
+	if n <= 0 {
+		return
+	}
+	known := loadKnown()
+	isKnown := func(o *Obligation) bool {
+		for _, k := range known.Findings {
+			if k.Obligation == o.Name && k.Status != "fixed" {
+				return true
+			}
+		}
+		return o.KnownFailing || (o.Clause != nil && o.Clause.Withdrawn)
+	}
+	var wg sync.WaitGroup
+	repl := make([]*FuncReport, len(cr.reports))
+	replW := make([]*World, len(cr.reports))
+	for i, rep := range cr.reports {
+		ct := rep.Contract
+		if ct == nil || ct.Opts["maprange"] == "deterministic" || ct.Opts["verify"] == "callsites" {
+			continue
+		}
+		det := false
+		for _, ls := range ct.Loops {
+			det = det || ls.Deterministic
+		}
+		if det {
+			continue
+		}
+		sp := cr.l.SPkgs[ct.Pkg]
+		if sp == nil {
+			continue
+		}
+		fn := allFunctions(cr.l, sp)[ct.Name]
+		if fn == nil {
+			continue
+		}
+		li := analyzeLoops(fn)
+		if len(li.isHeader) == 0 {
+			continue
+		}
+		// nested loops multiply: one entry fewer per loop head when a loop contains another
+		nfn := n
+		if os.Getenv("GOAVC_UNROLL") == "" {
+			for h := range li.isHeader {
+				for _, b := range li.body[h] {
+					if b != h && li.isHeader[b] > 0 {
+						nfn = n - 1
+					}
+				}
+			}
+		}
+		why := ""
+		failing := false
+		if rep.Unsupported != "" {
+			failing = true
+			why = "outside the subset under the contract's hints: " + rep.Unsupported
+		}
+		for _, o := range rep.Obls {
+			if o.ok() || isKnown(o) {
+				continue
+			}
+			if cr.role[rep] == "property" && o.Kind == "ensures" && !hasProp(o.Props, cr.prop) {
+				continue
+			}
+			failing = true
+			if !o.Star && why == "" {
+				switch o.Kind {
+				case "loop.init", "loop.step", "loop.rel", "loopwrite", "assert", "frame":
+					why = "helper obligation " + o.Label + " fails: the loop invariants do not describe this body"
+				}
+			}
+		}
+		if len(rep.SetAside) > 0 && why == "" {
+			why = rep.SetAside[0]
+		}
+		if !failing || why == "" {
+			continue
+		}
+		wg.Add(1)
+		go func(i int, rep *FuncReport, why string, n int) {
+			defer wg.Done()
+			r2, w2 := verifyFunctionBounded(cr.l, cr.specs, rep.Contract, rep.Alias, n)
+			if r2.Unsupported != "" {
+				if os.Getenv("GOAVC_DEBUG") != "" {
+					fmt.Fprintf(os.Stderr, "bounded stand-in of %s: %s\n", rep.Name, r2.Unsupported)
+				}
+				return
+			}
+			solveAll(w2, r2.Obls, cr.timeout, cr.seed)
+			for _, o := range r2.Obls {
+				if !o.ok() && !isKnown(o) {
+					if os.Getenv("GOAVC_DEBUG") != "" {
+						fmt.Fprintf(os.Stderr, "bounded stand-in of %s: %s %s\n", rep.Name, o.Name, o.Result.Status)
+					}
+					return
+				}
+			}
+			r2.BoundedWhy = why
+			r2.Renamed = rep.Renamed
+			r2.Used, r2.Inlined = rep.Used, rep.Inlined
+			for a := range w2.assumps {
+				r2.Assumptions = append(r2.Assumptions, a)
+			}
+			r2.Assumptions = append(r2.Assumptions, fmt.Sprintf("BOUNDED (not proved): %s was checked with every loop entered at most %d times and no loop invariant, because %s", rep.Name, n, why))
+			repl[i], replW[i] = r2, w2
+		}(i, rep, why, nfn)
+	}
+	wg.Wait()
+	for i, r2 := range repl {
+		if r2 == nil {
+			continue
+		}
+		old := cr.reports[i]
+		cr.role[r2] = cr.role[old]
+		cr.worlds[r2] = replW[i]
+		cr.reports[i] = r2
+	}
 }
 
 func (cr *checkRun) generateAndSolve() {
@@ -431,6 +567,9 @@ func (cr *checkRun) report(start time.Time, evPath string) int {
 	var solverMs int64
 	bySolver := map[string]int{}
 	vacuity := 0
+	var boundedFns []map[string]any
+	boundedOK := 0
+	var lines []string
 	for _, rep := range cr.reports {
 		fnNames = append(fnNames, shortPkg(rep.Pkg)+"."+rep.Name+" ("+cr.role[rep]+")")
 		for _, a := range rep.Assumptions {
@@ -453,6 +592,10 @@ func (cr *checkRun) report(start time.Time, evPath string) int {
 			records = append(records, oblRecord{Name: o.Name, Kind: "subset", Star: true, Role: cr.role[rep], Result: "outside-subset: " + rep.Unsupported})
 			continue
 		}
+		if rep.Bounded > 0 {
+			boundedFns = append(boundedFns, map[string]any{"function": shortPkg(rep.Pkg) + "." + rep.Name, "loop_entries": rep.Bounded, "paths_cut": rep.BoundedCuts, "why": rep.BoundedWhy, "obligations": len(rep.Obls)})
+			lines = append(lines, fmt.Sprintf("BOUNDED: property=%s %s.%s: %s; checked instead with every loop entered at most %d times (no invariant used): %d obligations discharged, no violation found -- held on everything explored, not proved", prop, shortPkg(rep.Pkg), rep.Name, rep.BoundedWhy, rep.Bounded, len(rep.Obls)))
+		}
 		for _, o := range rep.Obls {
 			if cr.role[rep] == "property" && o.Kind == "ensures" && !hasProp(o.Props, prop) {
 				continue // clause serves another property
@@ -471,7 +614,12 @@ func (cr *checkRun) report(start time.Time, evPath string) int {
 			total++
 			solverMs += o.Result.Ms
 			rec := oblRecord{Name: o.Name, Kind: o.Kind, Star: o.Star, Role: cr.role[rep], Result: o.Result.Status, Solver: o.Result.Solver, Ms: o.Result.Ms, Solvers: o.Result.All}
-			if o.ok() {
+			if rep.Bounded > 0 {
+				rec.Kind = "bounded:" + o.Kind
+			}
+			if o.ok() && rep.Bounded > 0 {
+				boundedOK++
+			} else if o.ok() {
 				discharged++
 				bySolver[o.Result.Solver]++
 			} else {
@@ -508,7 +656,6 @@ func (cr *checkRun) report(start time.Time, evPath string) int {
 	// classify failures. Frame obligations of one function are reported together.
 	violations := 0
 	var knownHit []string
-	var lines []string
 	frameGroup := map[string][]*Obligation{}
 	var frameOrder []string
 	var rest []*Obligation
@@ -646,6 +793,8 @@ func (cr *checkRun) report(start time.Time, evPath string) int {
 			"outside_subset":            outside,
 			"known_findings_hit":        knownHit,
 			"contract_drift":            cr.drift,
+			"bounded_fallback":          boundedFns,
+			"bounded_discharged":        boundedOK,
 			"bounded_standins":          bounded,
 			"assumption_audits":         audits,
 			"must_fail_corpus":          corpus,
@@ -660,7 +809,7 @@ func (cr *checkRun) report(start time.Time, evPath string) int {
 	for _, ln := range lines {
 		fmt.Println(ln)
 	}
-	fmt.Printf("%s: %d obligations, %d discharged, %d known findings, %d violations, %.1fs\n", prop, total, discharged, len(knownHit), violations, time.Since(start).Seconds())
+	fmt.Printf("%s: %d obligations, %d discharged, %d bounded only, %d known findings, %d violations, %.1fs\n", prop, total, discharged, boundedOK, len(knownHit), violations, time.Since(start).Seconds())
 	if violations > 0 {
 		return 1
 	}
